@@ -444,6 +444,7 @@ type termState struct {
 	nSkipped        int
 	nExecuted       int
 	nFatal          int
+	nRetried        int
 	children        int
 	maxPerSig       int
 	maxPerRoutine   int
@@ -472,6 +473,7 @@ func (st *termState) skipList() string {
 func (st *termState) runPartition(self, casesPath, journal string, lo, hi int) []tevent {
 	var events []tevent
 	calls := st.calls
+	retried := map[int]bool{}
 	from := lo
 	for from < hi {
 		os.Remove(journal)
@@ -573,8 +575,19 @@ func (st *termState) runPartition(self, casesPath, journal string, lo, hi int) [
 			ci := calls[open]
 			ticks := time.Now().UnixNano()/1e6 - openTs
 			st.mu.Lock()
+			if killed && !retried[open] {
+				// The watchdog had to kill the child inside this call.  The machine
+				// is shared: before the timeout counts, the same call gets a second
+				// attempt in a fresh child (a call that really spins times out
+				// again; a call that was merely starved answers now).
+				retried[open] = true
+				st.nRetried++
+				events = events[:len(events)-1] // drop the call event of the first attempt
+				st.mu.Unlock()
+				from = open
+				continue
+			}
 			if killed {
-				// the watchdog had to kill the child inside this call
 				events = append(events, tevent{"timeout", open, ticks})
 				st.count(ci.r, "timeout")
 				st.nTimeouts++
@@ -636,8 +649,8 @@ func termParent(args []string) {
 	st := &termState{calls: calls, out: out, sigTimeouts: map[string]int{}, routineTimeouts: map[string]int{},
 		skip: map[string]bool{}, outcomes: map[string]map[string]int{}, slowest: map[string]int64{},
 		maxPerSig:     vh.EnvInt("VERIF_TERM_MAX_PER_SIG", 2),
-		maxPerRoutine: vh.EnvInt("VERIF_TERM_MAX_PER_ROUTINE", 6),
-		maxTotal:      vh.EnvInt("VERIF_TERM_MAX_TIMEOUTS", 16)}
+		maxPerRoutine: vh.EnvInt("VERIF_TERM_MAX_PER_ROUTINE", 3),
+		maxTotal:      vh.EnvInt("VERIF_TERM_MAX_TIMEOUTS", 8)}
 	// contiguous partitions, one child at a time per partition
 	np := vh.EnvInt("VERIF_TERM_PARTITIONS", 3)
 	if np > len(calls) {
@@ -672,6 +685,6 @@ func termParent(args []string) {
 	sort.Strings(skipped)
 	vh.Summary(out, vh.M{"cases": len(cases), "calls": len(calls), "executed": st.nExecuted, "timeouts": st.nTimeouts,
 		"skipped_known": st.nSkipped, "fatal": st.nFatal, "children": st.children, "outcomes": st.outcomes, "slowest_ticks": sl,
-		"skipped_signatures": skipped, "partitions": np})
+		"skipped_signatures": skipped, "partitions": np, "retried_after_first_timeout": st.nRetried})
 	out.Close()
 }
